@@ -283,7 +283,7 @@ example : StatusOk 1 [] ∧ StatusOk 4 [97, 98, 99, 100, 101, 102, 103] ∧ Stat
 end Datacake.C12b
 
 namespace Datacake.C12b
-open Datacake.Rpc Datacake.Exchange
+open Datacake.Rpc Datacake.Exchange Datacake.C12
 
 /-! ### `cutAt` (how the `rawframe` cases cut a frame at given positions) only cuts -/
 
@@ -339,6 +339,51 @@ theorem cutAt_flatten (positions : List Nat) (bytes : List Nat) : (cutAt positio
       ((positions.map (fun p => min p bytes.length)) ++ [bytes.length])).2 = bytes.length :=
     Nat.le_antisymm h.2.1 hlast
   rw [h.1, heq, List.take_length]
+
+/-- A request frame cut short below the fixed part plus the trailer - any bytes at all of that length -
+is refused end to end, no handler ran (`short_frame_rejectedA` carried through the exchange). -/
+theorem exchange_short (table : List Nat → Option Handler) (path : List Nat) (h : Handler)
+    (rf ra : Nat) (frame : List Nat) (reqCuts respCuts : List Nat)
+    (ht : table path = some h) (hshort : frame.length < h.fixed + 4) :
+    exchange table path rf ra frame reqCuts respCuts = (.status INVALID_PAYLOAD invalidMsg, []) :=
+  exchange_refused table path h rf ra frame reqCuts respCuts ht (short_frame_rejectedA h.fixed h.align frame hshort)
+
+/-- **reply_damaged_refused**: the REPLY direction.  Whatever arrives as the body of a 200 answer, if
+`DataView::using` refuses it for the reply type, the client reports `InvalidPayload` - it never hands
+out a reply view over such bytes … -/
+theorem reply_damaged_refused (rf ra : Nat) (chunks : List (List Nat)) (hint : Nat)
+    (hbad : checkFrameA rf ra chunks.flatten = none) :
+    client rf ra 200 chunks hint = .status INVALID_PAYLOAD invalidMsg := by
+  unfold client
+  simp only [toAligned_bytes, if_true, hbad]
+
+/-- … in particular a reply frame with one bit flipped anywhere (body or trailer), in any chunking. -/
+theorem reply_bit_flip_refused (rf ra : Nat) (r : List Nat) (j i : Nat) (chunks : List (List Nat)) (hint : Nat)
+    (hj : j < (mkFrame r).length) (hi : i < 8) (hch : chunks.flatten = flipBit (mkFrame r) j i) :
+    client rf ra 200 chunks hint = .status INVALID_PAYLOAD invalidMsg :=
+  reply_damaged_refused rf ra chunks hint (by rw [hch]; exact single_bit_flip_rejectedA rf ra r j i hj hi)
+
+/-- A reply the client hands out is the body of a frame that passed the check: its bytes are exactly
+the bytes in front of a matching trailer (no reply is ever made up). -/
+theorem reply_only_from_valid_frame (rf ra http : Nat) (chunks : List (List Nat)) (hint : Nat) (body : List Nat)
+    (h : client rf ra http chunks hint = .reply body) :
+    http = 200 ∧ checkFrameA rf ra chunks.flatten = some body := by
+  unfold client at h
+  simp only [toAligned_bytes] at h
+  by_cases h200 : http = 200
+  · simp only [h200, if_true] at h
+    cases hc : checkFrameA rf ra chunks.flatten with
+    | none => rw [hc] at h; cases h
+    | some b => rw [hc] at h; simp only [Outcome.reply.injEq] at h; exact ⟨h200, by rw [h]⟩
+  · simp only [h200, if_false] at h
+    cases hc : checkFrameA STATUS_FIXED STATUS_ALIGN chunks.flatten with
+    | none => rw [hc] at h; cases h
+    | some b =>
+      rw [hc] at h
+      simp only at h
+      cases hr : readRoot b with
+      | none => rw [hr] at h; cases h
+      | some p => obtain ⟨c, m⟩ := p; rw [hr] at h; cases h
 
 /-- **server_any_chunks**: what the server does depends on the bytes that arrived, not on how they
 were cut or what was announced (so the exchange theorems hold for the chunks of `cutAt` and of the
